@@ -4,7 +4,7 @@ C13 — "Random byte stream is Salsa20 keystream under a per-request unique nonc
 Proved here, for ALL keys, request histories and lengths, about the model `Nfl.FastRandom` of
 lib/prng/fastrandombytes.cpp with the assembly routine instantiated by the Salsa20/20 specification
 `Nfl.Salsa20.stream`:
-  nonce_after, request_output(_lt), stream_length, stream_prefix, block_inputs_injective,
+  nonce_after, request_output(_lt), stream_length, stream_prefix, stream_window, block_inputs_injective,
   requests_never_share_block_input, key_once.
 
 NOT proved (observed at run time by `./check C13`, harness/salsa.cpp):
@@ -115,6 +115,30 @@ theorem stream_prefix (key nonce : List Nat) {len len' : Nat} (h : len ≤ len')
 
 example : stream exKey (List.replicate 8 0) 63 = (stream exKey (List.replicate 8 0) 130).take 63 := by
   decide +kernel
+
+/-- **stream_window** (random access): bytes `[off, off + n)` of a request of `len ≥ off + n` bytes are what
+`Salsa20.window` computes from the blocks `off / 64, …` alone.  This is what the driver evaluates on the sampled
+windows (`frbwin` / `salsa20asmwin` lines) of requests too long to be re-generated in Lean (≥ 2^24 … 2^33 bytes);
+the block counter `off / 64 + i` is a natural number, i.e. NOT truncated to 32 bits. -/
+theorem stream_window (key nonce : List Nat) {off n len : Nat} (h : off + n ≤ len) :
+    ((stream key nonce len).drop off).take n = window key nonce off n := by
+  have hp : stream key nonce (off + n) = (stream key nonce len).take (off + n) := stream_prefix key nonce h
+  have h1 : ((stream key nonce len).drop off).take n = (stream key nonce (off + n)).drop off := by
+    rw [hp, List.drop_take]; simp
+  rw [h1]
+  have := window_eq key nonce (off / 64) (off % 64) n
+  have hoff : 64 * (off / 64) + off % 64 = off := by omega
+  rw [hoff] at this
+  exact this
+
+/-- … and the window has exactly `n` bytes -/
+theorem window_length (key nonce : List Nat) (off n : Nat) : (window key nonce off n).length = n := by
+  rw [← stream_window key nonce (Nat.le_refl (off + n)), List.length_take, List.length_drop, stream_length]
+  omega
+
+example : window exKey (List.replicate 8 0) 60 10 = ((stream exKey (List.replicate 8 0) 200).drop 60).take 10 := by
+  decide +kernel
+example : (window exKey (List.replicate 8 0) (2 ^ 32 + 37) 3).length = 3 := by decide +kernel
 
 /-- each byte of the stream is a byte of the block it falls into: byte `p` of the stream (p < len) is byte `p % 64`
 of `Salsa20_key(nonce, p / 64)` -/
